@@ -15,6 +15,8 @@ structure St where
   /-- client-level scenario: the connection's per-channel writer and the channel's batch config -/
   cp : PCW := {}
   ccfg : BatchCfg := ⟨0, 0, false⟩
+  /-- client-level scenario: the connection is subscribed to the channel -/
+  csub : Bool := true
 
 def fmtBatch (b : List CItem) : String := "[" ++ joinWith "," (b.map (fun i => toString i.id)) ++ "]"
 
@@ -74,15 +76,22 @@ def step (s : St) (line : String) : St × String :=
     | _, _ => (s, "bad-op")
   | "creset" :: rest =>
     match kvNat rest "delay", kvNat rest "size", kvNat rest "latest" with
-    | some d, some sz, some l => ({ s with cp := {}, ccfg := ⟨sz, d, l != 0⟩ }, "creset")
+    | some d, some sz, some l => ({ s with cp := {}, ccfg := ⟨sz, d, l != 0⟩, csub := true }, "creset")
     | _, _, _ => (s, "bad-op")
   | "cadd" :: rest =>
     match (kv rest "f").bind parseFrame, kvNat rest "id" with
     | some f, some i =>
+      -- not subscribed: the hub has no entry for the connection, nothing reaches its channel writer
+      if !s.csub then (s, "seq=[]") else
       let key := if f == .pub then (kvNat rest "key").getD 0 else 0
       let (p', b) := s.cp.add 1 ⟨i, key, f⟩ s.ccfg
       ({ s with cp := p' }, "seq=" ++ fmtBatch (match b with | some y => y | none => []))
     | _, _ => (s, "bad-op")
+  | ["cunsub"] =>
+    -- a client unsubscribe runs `delWriter(ch, false)`: whatever is batched for the channel is dropped
+    let (p', _) := s.cp.del 1 false
+    ({ s with cp := p', csub := false }, "seq=[]")
+  | ["csub"] => ({ s with csub := true }, "seq=[]")
   | ["csleep", d] =>
     match d.toNat? with
     | some dl =>
